@@ -47,7 +47,9 @@ func c02(c *core.Ctx, r *core.Report) {
 		sub := core.NewReport("C04", c.Tier, 0)
 		c04Explore(c, sub, T)
 		for _, o := range sub.Obls {
-			if o.Rule == "C04.A2" || o.Rule == "C04.A1" || o.Verdict == core.Undecided {
+			// A4: a failed creation that leaves its early reference behind makes a later start "succeed" with a
+			// half-built component (required points unpopulated)
+			if o.Rule == "C04.A2" || o.Rule == "C04.A1" || o.Rule == "C04.A4" || o.Verdict == core.Undecided {
 				o2 := *o
 				o2.Rule = "C02.R5"
 				o2.Construct = o.Rule + ":" + o.Construct
